@@ -1,9 +1,11 @@
 package main
 
 import (
+	"fmt"
 	"go/constant"
 	"go/token"
 	"go/types"
+	"strings"
 
 	"golang.org/x/tools/go/ssa"
 )
@@ -19,6 +21,46 @@ import (
 
 type pathEnv struct {
 	vals map[ssa.Value]constant.Value
+	mem  map[string]constant.Value               // constant contents of local aggregates, by canonical address
+	agg  map[ssa.Value]map[string]constant.Value // an aggregate value that was loaded: its known parts by relative path
+}
+
+// addrKey: a canonical name for an address inside a local aggregate (alloc, constant indices,
+// fields), or "" when it is not one.
+func (e *pathEnv) addrKey(a ssa.Value) string {
+	switch x := a.(type) {
+	case *ssa.Alloc:
+		return fmt.Sprintf("%p", x)
+	case *ssa.FieldAddr:
+		if k := e.addrKey(x.X); k != "" {
+			return fmt.Sprintf("%s.%d", k, x.Field)
+		}
+	case *ssa.IndexAddr:
+		base := x.X
+		if sl, ok := base.(*ssa.Slice); ok && sl.Low == nil {
+			base = sl.X // t[:] of a local array
+		}
+		if k := e.addrKey(base); k != "" {
+			if iv, ok := e.get(x.Index); ok && iv.Kind() == constant.Int {
+				return fmt.Sprintf("%s[%s]", k, iv.ExactString())
+			}
+		}
+	}
+	return ""
+}
+
+func (e *pathEnv) clone() *pathEnv {
+	cp := &pathEnv{vals: map[ssa.Value]constant.Value{}, mem: map[string]constant.Value{}, agg: map[ssa.Value]map[string]constant.Value{}}
+	for k, v := range e.agg {
+		cp.agg[k] = v // snapshots are immutable
+	}
+	for k, v := range e.vals {
+		cp.vals[k] = v
+	}
+	for k, v := range e.mem {
+		cp.mem[k] = v
+	}
+	return cp
 }
 
 func (e *pathEnv) get(v ssa.Value) (constant.Value, bool) {
@@ -43,6 +85,7 @@ type evalCfg struct {
 	seed   func(v ssa.Value) (constant.Value, bool)
 	decide func(cond ssa.Value, env *pathEnv) (bool, bool)
 	limit  int
+	depth  int // nesting of first-party helper evaluation
 }
 
 func truncInt(v constant.Value, t types.Type) constant.Value {
@@ -93,8 +136,9 @@ func evalPaths(fn *ssa.Function, cfg evalCfg) (results []pathResult, complete bo
 			complete = false
 			return
 		}
-		if visits[b] >= 1 {
-			// loops are not unrolled: abandon (caller sees complete=false)
+		if visits[b] >= 33 {
+			// a loop is followed only as long as its condition evaluates to a constant (a range over
+			// a literal table); beyond that: abandon (caller sees complete=false)
 			complete = false
 			return
 		}
@@ -120,6 +164,11 @@ func evalPaths(fn *ssa.Function, cfg evalCfg) (results []pathResult, complete bo
 			env.vals[k] = v
 		}
 		for _, in := range b.Instrs {
+			if v, isV := in.(ssa.Value); isV && visits[b] > 1 {
+				if _, isPhi := in.(*ssa.Phi); !isPhi {
+					delete(env.vals, v) // a later iteration of a loop: recompute, never reuse
+				}
+			}
 			switch x := in.(type) {
 			case *ssa.Phi:
 			case *ssa.BinOp:
@@ -154,10 +203,98 @@ func evalPaths(fn *ssa.Function, cfg evalCfg) (results []pathResult, complete bo
 					if a, ok := env.get(x.X); ok && a.Kind() == constant.Int {
 						env.vals[x] = truncInt(constant.UnaryOp(token.SUB, a, 0), x.Type())
 					}
-				} else if x.Op == token.MUL && cfg.seed != nil {
-					if cv, ok := cfg.seed(x); ok {
-						env.vals[x] = cv
+				} else if x.Op == token.MUL {
+					seeded := false
+					if cfg.seed != nil {
+						if cv, ok := cfg.seed(x); ok {
+							env.vals[x] = cv
+							seeded = true
+						}
 					}
+					if !seeded {
+						delete(env.vals, x) // (a load inside a loop: the previous iteration's value is stale)
+						delete(env.agg, x)
+						if k := env.addrKey(x.X); k != "" {
+							if cv, ok := env.mem[k]; ok {
+								env.vals[x] = cv
+							}
+							switch x.Type().Underlying().(type) {
+							case *types.Struct, *types.Array:
+								snap := map[string]constant.Value{}
+								for mk, mv := range env.mem {
+									if strings.HasPrefix(mk, k) && len(mk) > len(k) && (mk[len(k)] == '.' || mk[len(k)] == '[') {
+										snap[mk[len(k):]] = mv
+									}
+								}
+								env.agg[x] = snap
+							}
+						}
+					}
+				}
+			case *ssa.Store:
+				if k := env.addrKey(x.Addr); k != "" {
+					// whatever was known below this address is overwritten
+					for mk := range env.mem {
+						if strings.HasPrefix(mk, k) && (len(mk) == len(k) || mk[len(k)] == '.' || mk[len(k)] == '[') {
+							delete(env.mem, mk)
+						}
+					}
+					if cv, ok := env.get(x.Val); ok {
+						env.mem[k] = cv
+					} else if snap, ok := env.agg[x.Val]; ok {
+						for rel, mv := range snap {
+							env.mem[k+rel] = mv
+						}
+					}
+				}
+			case *ssa.Call:
+				if bi, isB := x.Call.Value.(*ssa.Builtin); isB && bi.Name() == "len" && len(x.Call.Args) == 1 {
+					if n, ok := fixedLen(x.Call.Args[0]); ok {
+						env.vals[x] = constant.MakeInt64(n)
+					}
+					break
+				}
+				// a first-party helper with one result that is the same constant on every path under the
+				// seeds (a pure function of the seeded fields and of known arguments)
+				callee := x.Call.StaticCallee()
+				if callee == nil || !IsFirstParty(callee) || callee.Blocks == nil || cfg.depth >= 2 || callee.Signature.Results().Len() != 1 {
+					break
+				}
+				args := x.Call.Args
+				sub := evalCfg{limit: 64, depth: cfg.depth + 1, seed: func(v ssa.Value) (constant.Value, bool) {
+					if p, isP := v.(*ssa.Parameter); isP && p.Parent() == callee {
+						for i, q := range callee.Params {
+							if q == p && i < len(args) {
+								return env.get(args[i])
+							}
+						}
+						return nil, false
+					}
+					if cfg.seed != nil {
+						return cfg.seed(v)
+					}
+					return nil, false
+				}}
+				rs, done := evalPaths(callee, sub)
+				if !done || len(rs) == 0 {
+					break
+				}
+				var val constant.Value
+				same := true
+				for _, r := range rs {
+					if len(r.Unknown) > 0 || len(r.Ret.Results) != 1 {
+						same = false
+						break
+					}
+					cv, ok := r.Env.get(r.Ret.Results[0])
+					if !ok || (val != nil && !constant.Compare(val, token.EQL, cv)) {
+						same = false
+						break
+					}
+					val = cv
+				}
+				if same && val != nil {
+					env.vals[x] = val
 				}
 			case *ssa.Convert:
 				if a, ok := env.get(x.X); ok && a.Kind() == constant.Int {
@@ -168,16 +305,21 @@ func evalPaths(fn *ssa.Function, cfg evalCfg) (results []pathResult, complete bo
 					env.vals[x] = a
 				}
 			case *ssa.Field:
+				delete(env.vals, x)
 				if cfg.seed != nil {
 					if cv, ok := cfg.seed(x); ok {
 						env.vals[x] = cv
 					}
 				}
-			case *ssa.Return:
-				cp := &pathEnv{vals: map[ssa.Value]constant.Value{}}
-				for k, v := range env.vals {
-					cp.vals[k] = v
+				if _, ok := env.vals[x]; !ok {
+					if snap, ok := env.agg[x.X]; ok {
+						if cv, ok := snap[fmt.Sprintf(".%d", x.Field)]; ok {
+							env.vals[x] = cv
+						}
+					}
 				}
+			case *ssa.Return:
+				cp := env.clone()
 				results = append(results, pathResult{Ret: x, Env: cp, Blocks: append([]int(nil), blocks...), Unknown: append([]ssa.Value(nil), unknown...)})
 				return
 			case *ssa.Jump:
@@ -185,10 +327,20 @@ func evalPaths(fn *ssa.Function, cfg evalCfg) (results []pathResult, complete bo
 				return
 			case *ssa.If:
 				var val, known bool
-				if cv, ok := env.get(x.Cond); ok && cv.Kind() == constant.Bool {
+				cond := x.Cond
+				// a && b / a || b as a branch condition: on entry from pred the phi is that edge's value
+				if phi, isPhi := cond.(*ssa.Phi); isPhi && phi.Block() == b && pred != nil {
+					for i, p := range b.Preds {
+						if p == pred && i < len(phi.Edges) {
+							cond = phi.Edges[i]
+							break
+						}
+					}
+				}
+				if cv, ok := env.get(cond); ok && cv.Kind() == constant.Bool {
 					val, known = constant.BoolVal(cv), true
 				} else if cfg.decide != nil {
-					val, known = cfg.decide(x.Cond, env)
+					val, known = cfg.decide(cond, env)
 				}
 				if known {
 					i := 1
@@ -199,10 +351,7 @@ func evalPaths(fn *ssa.Function, cfg evalCfg) (results []pathResult, complete bo
 					return
 				}
 				for i := 0; i < 2; i++ {
-					cp := &pathEnv{vals: map[ssa.Value]constant.Value{}}
-					for k, v := range env.vals {
-						cp.vals[k] = v
-					}
+					cp := env.clone()
 					walk(b.Succs[i], b, cp, blocks, append(append([]ssa.Value(nil), unknown...), x.Cond), visits)
 				}
 				return
@@ -211,7 +360,7 @@ func evalPaths(fn *ssa.Function, cfg evalCfg) (results []pathResult, complete bo
 			}
 		}
 	}
-	env := &pathEnv{vals: map[ssa.Value]constant.Value{}}
+	env := &pathEnv{vals: map[ssa.Value]constant.Value{}, mem: map[string]constant.Value{}, agg: map[ssa.Value]map[string]constant.Value{}}
 	if cfg.seed != nil {
 		for _, p := range fn.Params {
 			if cv, ok := cfg.seed(p); ok {
